@@ -19,6 +19,7 @@ infinity (limit), PT1/PT3.
 This file restates the theorems the property rests on (full statements; proofs are in PGProofs/).
 Generated once by harness/mkprops.py from harness/props_table.py + PGProperties/extra/C06.lean.in; committed as source.
 -/
+import PGProofs.TwoLocusInit
 import PGProofs.Assembly
 import PGProofs.BridgeTwoLocus
 import PGProofs.Marginal
@@ -29,6 +30,12 @@ set_option pp.fieldNotation.generalized false
 
 namespace PG.C06
 open PG
+
+/-- single deme, any number of initially unlinked lineages: moments with the alpha the code uses equal those of the labelled stopped ARG -/
+theorem arg_eq_labelled_any_linkage : type_of% @PG.TwoLocusInit.C06_arg_eq_labelled_alpha_init := @PG.TwoLocusInit.C06_arg_eq_labelled_alpha_init   -- (printed statement does not re-elaborate; see the source lemma)
+
+/-- alpha is the point mass at (n-u linked, u + u unlinked) -/
+theorem initial_linkage : ∀ {ts : ℕ → Fin 1 → ℚ} {mig : ℕ → Fin 1 → Fin 1 → ℚ} {r : ℕ → ℚ} {fuel : ℕ → ℕ} {G : ℕ → Graph} {n : ℕ}, 2 ≤ n → (∀ (e : ℕ), bfs (transit Model.kingman (mkEpoch (ts e) (mig e) (r e))) (initialState 2 1 1 n) (fuel e) = some (G e)) → ∀ u ≤ n, ∀ (j : Fin (List.length (G 0).visited)), List.getD (alphaVec (G 0).visited [n] 2 u) (↑j) 0 = if (G 0).visited[j] = enc2 (TwoLocusInit.sample2u (fun x ↦ n) u) then 1 else 0 := @PG.TwoLocusInit.two_locus_alpha_one_deme_init
 
 /-- HEADLINE: every two-locus moment of the code equals the moment of the labelled ancestral recombination graph stopped at absorption -/
 theorem arg_eq_labelled : ∀ {D : ℕ} {K : Type} [inst : Field K] [inst_1 : LinearOrder K] [inst_2 : IsStrictOrderedRing K] {cinit : Fin D × LCls → ℕ} {ts : ℕ → Fin D → ℚ} {mig : ℕ → Fin D → Fin D → ℚ} {r : ℕ → ℚ} {fuel : ℕ → ℕ} {G : ℕ → Graph}, (∀ (e : ℕ), bfs (transit Model.kingman (mkEpoch (ts e) (mig e) (r e))) (enc2 cinit) (fuel e) = some (G e)) → ∀ (L : ExpLaw K) (n' : ℕ) {k : ℕ} (rs : Fin k → Reward) (x0 : Assembly.LabS enc2 (G 0).visited (Assembly.bound2 (G 0).visited)) (fs : List (ℕ × K)), accumVal L (fun e ↦ Assembly.QLmat (Assembly.castRate (Assembly.argRateStop (r e) (ts e) (mig e))) Assembly.argNew Assembly.LabP.val) (fun a x ↦ ↑(Reward.eval n' (enc2 (cntF (Assembly.LabP.val x))) (rs a))) (fun x ↦ if x = x0 then 1 else 0) fs = accumVal L (fun e ↦ Matrix.map (Assembly.codeMat G e) fun q ↦ ↑q) (fun a j ↦ ↑(Reward.eval n' (G 0).visited[j] (rs a))) (fun j ↦ if (G 0).visited[j] = enc2 (cntF (Assembly.LabP.val x0)) then 1 else 0) fs := @PG.Assembly.C06_arg_eq_labelled
@@ -68,6 +75,8 @@ theorem combined_height_locus : ∀ (n : ℕ) (s : State) (l : ℕ), Reward.eval
 
 end PG.C06
 
+#print axioms PG.C06.arg_eq_labelled_any_linkage
+#print axioms PG.C06.initial_linkage
 #print axioms PG.C06.arg_eq_labelled
 #print axioms PG.C06.stopped_arg_generator
 #print axioms PG.C06.lumping_two_locus
